@@ -1150,7 +1150,7 @@ C16_VARIANTS = {
         "lites": {"nbr": 2, "nmaxb": 5, "old_len": 80, "ndef_first": False}},
     2: {"generic": {"nbr": 15, "nbw": 13, "nmaxb": 30, "old_len": 0, "extra": 0}, "standard": {"nbr": 12, "nbw": 8, "nmaxb": 20,
                                                                                               "old_len": 320, "other_systems": []},
-        "lite": {"nbr": 4, "nmaxb": 1, "old_len": 0}, "lites": {"nbr": 3, "nmaxb": 13, "old_len": 208}},
+        "lite": {"nbr": 4, "nmaxb": 3, "old_len": 0}, "lites": {"nbr": 3, "nmaxb": 13, "old_len": 208}},
 }
 NDEF_OPS = ("ndef_read", "ndef_write", "ndef_write_empty", "has_changed", "dump", "is_present")
 
@@ -1224,10 +1224,12 @@ def c16_execute(kind, opname, fault, variant=0):
         dev.script = None
     out["image"] = model.image()
     out["answered"] = [e[1] for e in dev.log[logbase:] if isinstance(e[2], bytes)]
-    # an answered command (response delivered to the reader) directly followed by the identical command
+    # an answered write command (response delivered to the reader) directly followed by the identical command; reads
+    # may legitimately be repeated back to back (protect() reads block 0 twice), they are covered by the comparison
+    # of the answered-command list with the fault-free run
     oplog = dev.log[logbase:]
     out["repeated"] = [i for i in range(len(oplog) - 1)
-                       if isinstance(oplog[i][2], bytes) and oplog[i + 1][1] == oplog[i][1]]
+                       if isinstance(oplog[i][2], bytes) and oplog[i + 1][1] == oplog[i][1] and oplog[i][1][1] == 0x08]
     out["attempts"] = dev.n_commands - base
     out["injected"] = (fault[2] - state["left"]) if fault else 0
     # a command that the tag executed although its response was lost and that cannot be executed a second time
